@@ -257,3 +257,56 @@ Proof.
   split; [apply (cross_h3 a fs tfs parts m sizes Hok Hb3)|].
   cbn [m_code m_header m_trailer m_api]. repeat split; assumption.
 Qed.
+
+(* ====================================================================== *)
+(* every trailer field sent is delivered, whatever was announced          *)
+(* ====================================================================== *)
+
+Lemma hget_hset k k' vs m : hget k (hset k' vs m) = if bytes_eqb k k' then Some vs else hget k m.
+Proof.
+  induction m as [|[k0 v0] m IH]; cbn [hset hget].
+  - destruct (bytes_eqb k k'); reflexivity.
+  - destruct (bytes_eqb k' k0) eqn:E0; cbn [hget].
+    + apply bytes_eqb_eq in E0. subst k0. destruct (bytes_eqb k k'); reflexivity.
+    + destruct (bytes_eqb k k0) eqn:E1.
+      * apply bytes_eqb_eq in E1. subst k0. destruct (bytes_eqb k k') eqn:E; [|reflexivity].
+        apply bytes_eqb_eq in E. subst. rewrite bytes_eqb_refl in E0. discriminate.
+      * exact IH.
+Qed.
+
+Lemma hget_set_all k s : forall d, NoDup (keys s) ->
+  hget k (set_all d s) = match hget k s with Some v => Some v | None => hget k d end.
+Proof.
+  induction s as [|[k1 v1] s IH]; intros d Hn; [reflexivity|].
+  unfold set_all. cbn [fold_left fst snd]. fold (set_all (hset k1 v1 d) s).
+  inversion Hn as [|? ? Hk Hs]; subst. rewrite IH by exact Hs. cbn [hget].
+  destruct (bytes_eqb k k1) eqn:E.
+  - apply bytes_eqb_eq in E. subst k1. rewrite (hget_none_notin k s Hk). rewrite hget_hset, bytes_eqb_refl. reflexivity.
+  - destruct (hget k s); [reflexivity|]. now rewrite hget_hset, E.
+Qed.
+
+(* what the Trailer header announced (any set of keys: a subset of the fields sent, a superset,
+   disjoint from them, nothing) never hides a field that was sent: under every key that occurs in
+   the trailer section the caller finds exactly the values sent, in order; a key that was only
+   announced stays as announced *)
+Theorem trailers_sent_are_delivered k declared T :
+  hget k (merge_set_header declared (collect T)) =
+    match values_of k T with
+    | [] => hget k declared
+    | vs => Some vs
+    end /\
+  hget k (set_all declared (collect T)) =
+    match values_of k T with
+    | [] => hget k declared
+    | vs => Some vs
+    end.
+Proof.
+  assert (S : hget k (set_all declared (collect T)) =
+              match values_of k T with [] => hget k declared | vs => Some vs end).
+  { rewrite hget_set_all by (apply collect_from_nodup; constructor).
+    rewrite hget_collect. destruct (values_of k T); reflexivity. }
+  split; [|exact S].
+  unfold merge_set_header. destruct declared as [|d0 dr] eqn:Ed; cbn [is_nil].
+  - rewrite hget_collect. destruct (values_of k T); reflexivity.
+  - exact S.
+Qed.
